@@ -12,6 +12,17 @@ CHECKS = {
    note="SHA-256 / rs_merkle collision freedom; nothing claimed beyond the length bound.",
    technique="bounded exhaustive enumeration of all input pairs against a reference (prefix) model, executed on the real CommitTree/CommitProof code",
    design_ref="DESIGN.md §5 C08"),
+ "C18": dict(engine="archx", level="model_checking",
+   text="Round trips: accounts built with real API calls (flagged + described folder, several kinds, renamed folder, deleted secret, external file) followed by every enabled suffix of length <=1 (<=2 thorough) over 10 (13) operations, plus special shapes, exported and imported into empty storage for fs->v2->fs, sqlite->v3->sqlite and fs->v2->upgrade->v3->sqlite; the restored account must sign in with the same password and serve the same deep view and the same attachment bytes, and nothing outside the import target may change. Hostile archives: every single-entry mutation of a valid archive (content byte flips, checksum digits, missing / duplicated entries, renames to 12 escaping names, manifest account id / version; 5 800 archives quick, 53 000 thorough): import never panics, a checksum mismatch is refused without creating an account, no write outside the target.",
+   note="Blobs carry no manifest checksum (modified blobs are accepted by design); trusted devices and commit roots of rebuilt logs are reported, not required; the zip container itself is covered by C15-style mutation only through entries.",
+   technique="bounded exhaustive enumeration of account histories x archive formats and of all single-entry mutations of a valid archive, on the real export/import code",
+   design_ref="DESIGN.md §5 C18"),
+ "C19": dict(engine="upgx", level="model_checking",
+   text="Source trees built with real API calls (client and server layouts; 1-2 accounts per directory; never synced / synced to a real in-process server / synced then edited; flagged, described, deleted and renamed folders, XChaCha20+Balloon folder, custom fields, attachment, preferences, second trusted device, two server origins): dry run (source digest unchanged, no database created), then the real upgrade; per account sync status of every log, record streams event-for-event with timestamps, deep view, folders, devices, preferences, origins, blob bytes and decrypted attachments are equal before (fs) and after (sqlite); an upgraded client syncs cleanly against the old server, an old client against the upgraded server, and upgraded against upgraded.",
+   note="The second half of the property (same history on both backends gives the same account) is decided by the hist engine (C01 differential). Audit logs and system messages are not named by the property and not compared.",
+   technique="bounded exhaustive enumeration of source trees from real histories with a before/after differential oracle on the real upgrader",
+   design_ref="DESIGN.md §5 C19"),
+
  "C03": dict(engine="leakx", level="model_checking",
    text="For every one of the 15 secret kinds x client backend a real account is driven through a fixed history (create with marker values, update, folder with marker description, attachment, backup archive export, folder export, sync to a real in-process server through a recording TCP tee, further edit + sync, second device pulls); every user-supplied plaintext, every delegated folder password, the account password and the device signing key are markers. Every file under both client directories and the server directory (SQLite files and WAL, event logs, vaults, blobs, archives raw and inflated) and every byte captured on the wire in both directions is scanned for every marker in raw, hex, base64 (std/url, 3 alignments), UTF-16 LE/BE and JSON-escaped form. Positive controls (planted marker; markers present in the decrypted view) must succeed on every run.",
    note="Decides absence of the enumerated encodings, not cryptographic secrecy; histories are one fixed 9-step history per kind (the depth dimension is explored by C01's engine, whose blobs are all produced by the same encryption path); pairing messages are not driven.",
